@@ -148,8 +148,25 @@ def build(lib):
         side = k.get('side', a[2] if len(a) > 2 else 'left')
         if not isinstance(t, SArr) or t.rank != 1:
             t = as_array(it, t)
-        if isinstance(v, SArr) and v.rank > 0:
-            raise Unsupported("searchsorted of an array of values")
+        if not isinstance(v, (SArr, int, float, z3.ExprRef)):
+            v = as_array(it, v)
+        if isinstance(v, SArr) and v.rank > 1:
+            raise Unsupported("searchsorted of a matrix of values")
+        if isinstance(v, SArr) and v.rank == 1:
+            # vectorised form: one insertion index per value
+            it.ctx.note_trusted("np.searchsorted(t, values, side) on a sorted array: the insertion index of each value (left: first i with t[i] >= v; right: first i with t[i] > v)")
+            n = to_num(t.shape[0])
+            m = to_num(v.shape[0])
+            i = z3.Int(it.ctx._name('iss'))
+            i2 = z3.Int(it.ctx._name('iss'))
+            j = z3.Int(it.ctx._name('jss'))
+            it.ctx.oblige("pre(np.searchsorted): the array is sorted",
+                          z3.ForAll([i, i2], z3.Implies(z3.And(i >= 0, i < i2, i2 < n), t.get((i,)) <= t.get((i2,)))))
+            P = it.ctx.fresh_func('ssorted', z3.IntSort(), z3.IntSort())
+            cmp_ = (lambda x, y: x < y) if side == 'left' else (lambda x, y: x <= y)
+            it.ctx.assume(z3.ForAll([j], z3.Implies(z3.And(j >= 0, j < m), z3.And(P(j) >= 0, P(j) <= n)), patterns=[P(j)]))
+            it.ctx.assume(z3.ForAll([j, i], z3.Implies(z3.And(j >= 0, j < m, i >= 0, i < n), (i < P(j)) == cmp_(t.get((i,)), v.get((j,))))))
+            return SArr((v.shape[0],), lambda o: P(o[0]), 'int')
         v = v.get(()) if isinstance(v, SArr) else to_real(v)
         it.ctx.note_trusted("np.searchsorted(t, v, side) on a sorted array: the insertion index (left: first i with t[i] >= v; right: first i with t[i] > v)")
         n = to_num(t.shape[0])
